@@ -52,6 +52,19 @@ C = {
  "C18": dict(cat="model_checking", ref="7 C18",
       text="Explicit stamps over the field ranges (thorough: every (y,m,d)) set, flushed/closed and read back through a fresh mount and from the raw entry, plus random histories under a deterministic clock with access-date updating on and off: TLC applies Stamps!Trunc10ms/Trunc2s/DateOf and the stamping rules (create once, write, read, rename keeps, other entries untouched).",
       tech="TLA+ Stamps + TreeModel stamping rules, TLC trace validation"),
+ "C08": dict(cat="model_checking", ref="7 C08",
+      text="Volumes from an independent, seeded, specification-driven image builder (every encoding freedom listed in the property) are listed through the library and decoded by Abs(raw); TLC compares both with the builder's ground truth (names, attributes, stamps, sizes, contents), validates the built image itself against the structural invariants, and judges library mutations with the invariants and the frame clauses (FAT entries, slot digests, BAD marks, inactive copies, high nibbles).",
+      tech="TLA+ Abs(raw)/view vs ground truth + frame clauses, TLC trace validation on builder volumes"),
+ "C10": dict(cat="model_checking", ref="7 C10",
+      text="Histories (incl. fill to exhaustion) on builder volumes with 1-3 table copies, mirroring on/off with each active copy, FAT32 high nibbles, free-looking padding entries: after every call TLC checks copies equal or inactive copies untouched, entries 0/1 and padding unchanged, no link beyond the last cluster, high nibbles preserved.",
+      tech="TLA+ table-copy clauses evaluated by TLC on every FAT copy of the raw projection"),
+ "C11": dict(cat="model_checking", ref="7 C11",
+      text="Every device write of histories on own and builder volumes embedded in a larger device (guard bytes, filler in reserved sectors/boot code), also with devices performing short transfers, is mapped to its region in u64 arithmetic; TLC checks the region is permitted (status byte, FSInfo, tables, fixed root, clusters) and that written clusters belong to objects the call may change or were free.",
+      tech="TLA+ write-containment clauses evaluated by TLC on region-mapped device-write logs"),
+ "C20": dict(cat="model_checking", ref="7 C20",
+      text="Sparse builder volumes of 4 GiB, 1 TiB+, 2 TiB-512 B and at the FAT32 cluster limit (4096-byte sectors) with the next-free hint at/before/past the last cluster, unknown, and around the 2 GiB/4 GiB/1 TiB marks: short histories judged by the same model and raw-image oracles (contents by half-cluster digest, extents, statistics, no access at or beyond the declared end).",
+      tech="the same TLA+ oracles (TreeModel, FatFsA) on traces from sparse large volumes; offsets mapped in u64 by the projection",
+      note="Trusted: the u64 offset arithmetic of the harness decoder/region mapper (about 40 lines). File sizes above 2^31 are not explored (TLC integers)."),
 }
 checks = []
 for p in props:
